@@ -35,7 +35,7 @@ class Unsupported(Exception):
     pass
 
 
-LEAN_T = {"OE": "Option Ev", "I": "Int", "F": "Rat", "B": "Bool", "L": "List Int", "S": "String", "OF": "Option Rat", "E": "Ev", "LE": "List Ev"}
+LEAN_T = {"DF": "List Rat", "DI": "List Int", "FN2": "Rat → Rat → Rat", "OE": "Option Ev", "I": "Int", "F": "Rat", "B": "Bool", "L": "List Int", "S": "String", "OF": "Option Rat", "E": "Ev", "LE": "List Ev"}
 IDENT = {"float", "JulianDate", "ScenarioTime", "cls"}
 
 
@@ -56,7 +56,7 @@ class FnTr:
     def __init__(self, lean_name, fdef: ast.FunctionDef, mode, ptypes, consts, known, fuel=64):
         self.lean_name, self.fdef, self.mode, self.consts, self.known, self.fuel = lean_name, fdef, mode, consts, known, fuel
         args = [a.arg for a in fdef.args.args]
-        if fdef.args.vararg or fdef.args.kwarg or fdef.args.kwonlyargs:
+        if (fdef.args.vararg or fdef.args.kwarg or fdef.args.kwonlyargs) and not getattr(fdef, "_drop_varargs", False):
             raise Unsupported(f"{lean_name}: only positional parameters")
         self.params = []
         for a in args:
@@ -249,6 +249,8 @@ class FnTr:
         if f == "fmod" and len(args) == 2:
             (a, ta), (b, tb) = args
             return f"(pyFmod {self.toF(a, ta)} {self.toF(b, tb)})", "F"
+        if f == "sum" and len(args) == 1 and args[0][1] in ("DF", "DI"):
+            return f"({args[0][0]}.sum)", ("F" if args[0][1] == "DF" else "I")
         if f in ("fabs", "abs") and len(args) == 1:
             return f"(pyAbs {self.toF(*args[0])})", "F"
         if f == "sign" and len(args) == 1:
@@ -322,6 +324,10 @@ class FnTr:
         if isinstance(s, ast.Expr) and isinstance(s.value, ast.Call) and isinstance(s.value.func, ast.Attribute) and s.value.func.attr == "append":
             lst = s.value.func.value.id
             e, t = self.expr(s.value.args[0], env)
+            if (env.get(lst), t) in (("DF", "F"), ("DI", "I")):
+                # a `deque(maxlen=...)`: oldest first; the bound is the constructor's (a parameter, see `dq_maxlen`)
+                return (f"let {self.v(lst)} : {lean_ty(env[lst])} := dqAppend {self.dq_maxlen} {self.v(lst)} {e};\n{pad}"
+                        + self.block(rest, env, tail, ind))
             if env.get(lst) != "LE" or t != "E":
                 raise Unsupported("append")
             return f"let {self.v(lst)} : List Ev := {self.v(lst)} ++ [{e}];\n{pad}" + self.block(rest, env, tail, ind)
@@ -463,7 +469,7 @@ class FnTr:
         raise Unsupported(f"statement {type(s).__name__}")
 
     def translate(self):
-        env = {a: t for a, t in self.params}
+        env = {a: t for a, t in self.params + [x for x in self.extra_params if isinstance(x[1], str) and not x[1].startswith("FN")]}
         self._binds = []
         # guards may refer to variables bound before them: record top-level lets seen so far
         body_stmts = list(self.fdef.body)
@@ -611,6 +617,33 @@ TARGETS = {
                                {"None": "(active, False)", "self.thrust_func": "(active, True)"})}),
         ],
     },
+    "Detect": {
+        # the bookkeeping of the three maneuver detectors and the hypothesis test they hand their statistic to (C17);
+        # each `__call__` returns the object's new fields, the statistic and the degrees of freedom it passes to `test`
+        "file": "estimation/maneuver_detection.py",
+        "mode": "exact",
+        "fns": [
+            ("oneSidedChiSquareTest", "oneSidedChiSquareTest", {"metric": "F", "alpha": "F", "dof": "F", "runs": "I"}, 0,
+             {"file": "physics/statistics.py", "params": [("isf", "FN2")], "known": {"chi2.isf": ("isf", ["F", "F"], "F")}}),
+            ("StandardNis.__call__", "standardCall", {"self": "-", "residual": "-", "innov_cvr": "-"}, 0,
+             {"drop_varargs": ["test"], "kw_defaults": ["oneSidedChiSquareTest"], "params": [("dim", "I"), ("q", "F")],
+              "consts": {"residual.shape[0]": ("dim", "I"), "chiSquareQuadraticForm": ("q", "F")},
+              "object_state": ({"self.metric": "metric"}, set(), {"not test(self.metric, self.threshold, dof)": "(metric, dof)"})}),
+            # the two deques are created with `maxlen=window_size` in `__init__` (modelled: the bound enters as a parameter)
+            ("SlidingNis.__call__", "slidingCall", {"self": "-", "residual": "-", "innov_cvr": "-"}, 0,
+             {"drop_varargs": ["test"], "kw_defaults": ["oneSidedChiSquareTest"], "dq_maxlen": "window_size",
+              "params": [("dim", "I"), ("q", "F"), ("window_size", "I"), ("nis_list", "DF"), ("dim_list", "DI")],
+              "consts": {"residual.shape[0]": ("dim", "I"), "chiSquareQuadraticForm": ("q", "F")},
+              "object_state": ({"self.metric": "metric", "self.nis_list": "nis_list", "self.dim_list": "dim_list"}, set(),
+                               {"not test(self.metric, self.threshold, dof)": "(nis_list, dim_list, metric, dof)"})}),
+            ("FadingMemoryNis.__call__", "fadingCall", {"self": "-", "residual": "-", "innov_cvr": "-"}, 0,
+             {"drop_varargs": ["test"], "kw_defaults": ["oneSidedChiSquareTest"],
+              "params": [("dim", "I"), ("q", "F"), ("delta", "F"), ("prior_nis", "F"), ("total_dim", "I"), ("total", "I")],
+              "consts": {"residual.shape[0]": ("dim", "I"), "chiSquareQuadraticForm": ("q", "F"), "self.delta": ("delta", "F")},
+              "object_state": ({"self.metric": "metric", "self.prior_nis": "prior_nis", "self.total_dim": "total_dim", "self.total": "total"}, set(),
+                               {"not test(self.metric, self.threshold, dof)": "(prior_nis, total_dim, total, metric, dof)"})}),
+        ],
+    },
     "Prep": {
         # the body of the loop in which `Celestial._prepEvents` re-arms the burns already under way (C15): one pass, as a function of
         # the thrust slot, the burn's `active` flag and the start of the call
@@ -679,6 +712,7 @@ class _ObjectState(ast.NodeTransformer):
     def visit_Expr(self, node):
         if isinstance(node.value, ast.Call) and ast.unparse(node.value.func) in self.drop:
             return ast.Pass()
+        self.generic_visit(node)
         return node
 
     def visit_Return(self, node):
@@ -724,6 +758,13 @@ def generate(module):
         if table:
             fdef = _MethodOps(table).visit(fdef)
             ast.fix_missing_locations(fdef)
+        if extra.get("drop_varargs"):
+            # `*args, test=oneSidedChiSquareTest, **kwargs`: the detectors are called positionally with the default test
+            if [a.arg for a in fdef.args.kwonlyargs] != extra["drop_varargs"]:
+                raise Unsupported(f"{qual}: keyword-only parameters {[a.arg for a in fdef.args.kwonlyargs]}")
+            if [ast.unparse(d) for d in fdef.args.kw_defaults] != extra.get("kw_defaults", []):
+                raise Unsupported(f"{qual}: keyword defaults {[ast.unparse(d) for d in fdef.args.kw_defaults]}")
+            fdef._drop_varargs = True
         if "loop_body" in extra:
             # the body of the function's `for` loop as a function of the loop variable and the state it updates:
             # `continue` and the end of the body return that state
@@ -761,6 +802,7 @@ def generate(module):
         tr.extra_params = list(extra.get("params", []))
         tr.local_types = dict(extra.get("locals", {}))
         tr.skip_locals = set(extra.get("skip", []))
+        tr.dq_maxlen = extra.get("dq_maxlen")
         # a guard `if False: raise` left by the isinstance rewrite is dropped
         fdef.body = [s for s in fdef.body if not (isinstance(s, ast.If) and isinstance(s.test, ast.Constant) and s.test.value is False)]
         chunks.append(tr.translate())
